@@ -315,7 +315,8 @@ bool ManifestParser::ParseEdge(string* err) {
 
   // Bindings on edges are rare, so allocate per-edge envs only when needed.
   bool has_indent_token = lexer_.PeekToken(Lexer::INDENT);
-  BindingEnv* env = has_indent_token ? new BindingEnv(env_) : env_;
+  const bool has_own_env = has_indent_token;
+  BindingEnv* env = has_own_env ? new BindingEnv(env_) : env_;
   while (has_indent_token) {
     string key;
     EvalString val;
@@ -328,6 +329,7 @@ bool ManifestParser::ParseEdge(string* err) {
 
   Edge* edge = state_->AddEdge(rule);
   edge->env_ = env;
+  edge->has_own_env_ = has_own_env;
 
   string pool_name = edge->GetBinding("pool");
   if (!pool_name.empty()) {
